@@ -52,11 +52,20 @@ func ToDateTime64(t time.Time, p Precision) DateTime64 {
 	if t.IsZero() {
 		return 0
 	}
-	return DateTime64(t.UnixNano() / p.Scale())
+	// Not using t.UnixNano(), it overflows outside of 1678..2262.
+	scale := p.Scale()
+	return DateTime64(t.Unix()*(1e9/scale) + int64(t.Nanosecond())/scale)
 }
 
 // Time returns DateTime64 as time.Time.
 func (d DateTime64) Time(p Precision) time.Time {
-	nsec := int64(d) * p.Scale()
-	return time.Unix(nsec/1e9, nsec%1e9)
+	// Not multiplying d by scale, it overflows outside of 1678..2262.
+	scale := p.Scale()
+	perSec := int64(1e9) / scale
+	sec, frac := int64(d)/perSec, int64(d)%perSec
+	if frac < 0 {
+		sec--
+		frac += perSec
+	}
+	return time.Unix(sec, frac*scale)
 }
